@@ -158,5 +158,41 @@ CHECKS = {
              "rotations at every xi for Quaternion/SE3, mass matrix symmetric PSD with E_kin = 1/2 u^T M u, power-free gyroscopic forces.",
         note="Trusted: stencil error estimate; time-derivative relations are not demanded at non-nodal xi (Petrov-Galerkin velocities).",
         design="§3 C11"),
+    "C05": dict(
+        level="exploration", engine="grid",
+        technique="exhaustive product enumeration of joint type x axis x ordered subsystem pair x placement x state letters (all single-coordinate deviations) through an assembled System; flow-derivative, exact-affine and stencil oracles",
+        text="13 joint variants x pairs of {fixed frame, moving frame, point mass, rigid body, rod cross-section at 6 xi} x placements: joint satisfied where defined, g_dot = d/dt g, W_g = (d g_dot/du)^T, "
+             "g_ddot = d/dt g_dot, g_q, g_dot_q, Wla_g_q exact at defining and generic off-manifold states with non-unit quaternions.",
+        note="Trusted: stencil error estimate. For rod cross-sections the time-derivative relations are checked at nodal xi only (Petrov-Galerkin velocities; skipped comparisons are counted).",
+        design="§3 C05"),
+    "C09": dict(
+        level="exploration", engine="grid",
+        technique="complete enumeration of the finite configuration space force-law class/form x supported subsystem x initial configuration x registration order",
+        text="{Spring, KelvinVoigt} x {compliance, force} + Maxwell on TwoPointInteraction (6 pairings x 3 distances) and Revolute (2 pairings x 4 angle0 x 3 axes) x 3 registration orders x rest/common "
+             "translation: without l_ref the system assembles and force, energy, h vanish at the initial configuration; each configuration is built a second time with an explicit harness-computed l_ref.",
+        note="The configuration space named by the property is finite up to the numeric letters and is enumerated completely (900 configurations).",
+        design="§3 C09"),
+    "C25": dict(
+        level="model_checking", engine="statebfs",
+        technique="explicit-state BFS over rotation-increment histories on the real Revolute joint to a FIXPOINT (canonical key: lattice position mod N, quadrant, turn offset) + TLC model of the tracker whose state graph is replayed edge by edge against the implementation",
+        text="48 joint configurations x lattices N in {16,12,360} with reset/re-assemble letters: the state graph closes (<= 721 states per configuration), so the verdict covers histories of unbounded "
+             "length with any number of turns over the increment alphabet; exact integer-quaternion histories land on the quadrant boundaries; l_dot against the relative angular velocity. "
+             "models/RevoluteTracker.tla (nondeterministic on the axes) is checked by TLC and every model edge the implementation can take is replayed on a fresh real joint.",
+        note="Trusted: canonicalisation argument (DESIGN C25); TLC for the model. Increments off the lattices and increments of a quarter turn or more are outside.",
+        design="§3 C25, §1 E4"),
+    "C28": dict(
+        level="exploration", engine="grid",
+        technique="exhaustive enumeration of all rooted trees with 2-4 links x all joint-type assignments x origin/axis/inertial/root letters x configuration/velocity states; independent 4x4 forward-kinematics oracle",
+        text="All 7 trees x 6^n joint types (fixed, revolute, continuous, prismatic, floating, planar) x roots x origins x axes x inertial origins x 6 states: import and assembly succeed, constraints satisfied "
+             "on position and velocity level, every link at its forward-kinematics pose and twist, requested joint coordinates reported; moving each joint along its freedom keeps g = 0.",
+        note="Trusted: harness forward kinematics (cross-checked against its own 5-point time derivative). Planar joints only with axis 0 0 1; floating-joint velocity convention outside the verdict.",
+        design="§3 C28"),
+    "C29": dict(
+        level="exploration", engine="grid",
+        technique="exhaustive product enumeration of solution length x horizon x fps x overwrite x ascii/binary for frame selection, and of 20 contribution kinds x solution letters for geometry; files read back with vtk",
+        text=".pvd entries match the exported frames one for one, in time order, files exist and are distinct; every .vtu (points, connectivity, all vector/scalar arrays) equals the geometry the harness "
+             "computes from the solution row of that frame, for bodies, frames, meshed bodies, contacts, joints, force laws, forces/moments and four rod export levels; one real Moreau run.",
+        note="Trusted: vtkXMLUnstructuredGridReader; points are float32 (2e-6 relative). Rod level 'volume' is checked for structure and finiteness only.",
+        design="§3 C29"),
 }
 NOT_APPLICABLE = {}
